@@ -278,9 +278,8 @@ def stageMeta (ms : List (List Char)) : MetaStage :=
   -- `sorted(set(meta_languages))`: only its length and (when 1) its element are used
   let ms' := if ms.length > 1 then ms.eraseDups else ms
   let dup := ms.length > 1 ∧ ms'.length > 1
-  match ms' with
-  | [m] => ⟨t, some m, dup⟩
-  | _ => ⟨t, none, dup⟩
+  -- `if len(meta_languages) == 1: [meta_language] = meta_languages else: meta_language = None`
+  ⟨t, (match ms' with | [m] => some m | _ => none), dup⟩
 
 /-- the language a source outside the header names -/
 structure PathStage where
